@@ -84,12 +84,18 @@ struct ChunkySink<'a> {
     interrupts: &'a [u8],
     call: usize,
     interrupted_this_call: bool,
+    /// a healthy save delivers `reference.len()` bytes: a sink that has taken many times as much is being fed by a
+    /// writer that re-sends data (it then fails for good, so that the runaway ends as an error and not as a crash)
+    cap: usize,
 }
 
 impl Write for ChunkySink<'_> {
     fn write(&mut self, buf: &[u8]) -> io::Result<usize> {
         if buf.is_empty() {
             return Ok(0);
+        }
+        if self.data.len() > self.cap {
+            return Err(io::Error::new(io::ErrorKind::Other, "sink overrun: far more bytes delivered than the complete output has"));
         }
         if !self.interrupted_this_call && self.interrupts.contains(&((self.call % 64) as u8)) {
             self.interrupted_this_call = true;
@@ -199,7 +205,7 @@ pub fn check(case: &Case) -> Verdict {
     // (1) chunking and transient interruptions
     {
         let mut st = state0.clone();
-        let mut sink = ChunkySink { data: vec![], chunks: &case.chunks, interrupts: &case.interrupts, call: 0, interrupted_this_call: false };
+        let mut sink = ChunkySink { data: vec![], chunks: &case.chunks, interrupts: &case.interrupts, call: 0, interrupted_this_call: false, cap: 4 * reference.len() + 4096 };
         let r = no_panic("save_to (chunked sink)", || st.save_to(&mut sink)).map_err(|v| Violation::new("panic-on-failure", v.detail))?;
         CHUNKED.fetch_add(1, Ordering::Relaxed);
         if let Err(e) = r {
